@@ -859,7 +859,7 @@ def rg2(m, run, methods):
                        'geomdl/%s.py in %s' % (fi.mod, fi.key))
             # the other half of the clause: on a shape with normalised knot vectors the same methods do consult check_params, forward
             # what it accepts and keep away from the evaluator what it rejects
-            if meth in ('evaluate_single', 'evaluate_list', 'derivatives'):
+            if meth in ('evaluate_single', 'evaluate_list', 'derivatives', 'insert_knot', 'remove_knot'):
                 for verdict in (True, False):
                     record2 = []
                     obj2 = abstract_shape(cname, pdim, degs, sizes, True, record2)
@@ -876,7 +876,7 @@ def rg2(m, run, methods):
                             continue
                     except Unsupported:
                         continue
-                    reached = [r_ for r_ in record2 if r_[0].startswith('evaluator.')]
+                    reached = [r_ for r_ in record2 if r_[0].startswith('evaluator.') or r_[0] in ('insert_knot_func', 'remove_knot_func')]
                     n += 1
                     if verdict:
                         ok2 = bool(called2) and bool(reached) and not raised
@@ -4526,3 +4526,75 @@ def jr2(m, run, rule='JR2.dictionary-round-trip-on-real-classes'):
             raise AnalysisError('%s: interpreter met an unsupported construct: %s' % (key, ex))
         run.ob(rule, key + ' :: NURBS.%s' % cname, why is None, 'degrees, sizes, knots, homogeneous points (exact), delta, id come back unchanged' if why is None else why,
                'geomdl/_exchange.py in _exchange.export_dict_%s / import_dict_%s' % (tag, tag))
+
+
+def ops2_guard(m, run, fname, helper, sign):
+    """OPS2.guard: operations.insert_knot / remove_knot on the abstract shapes of OPS2 with requests at the multiplicity limit of every
+    direction (different degrees per direction): a count of exactly degree - multiplicity (insertion) / exactly the multiplicity (removal)
+    is carried out, one more is rejected with an exception before anything is written - net, sizes and knot vectors untouched, the
+    per-row helper not called.  Spelling-independent form of GD2 (whatever helper the test has been moved into)."""
+    cases = (('Curve', 1, (2,), (4,), [[0, 0, 0, 1, 2, 2, 2]]),
+             ('Surface', 2, (2, 1), (4, 5), [[0, 0, 0, 1, 2, 2, 2], [0, 0, 1, 2, 3, 4, 4]]),
+             ('Volume', 3, (1, 3, 2), (3, 5, 5), [[0, 0, 1, 2, 2], [0, 0, 0, 0, 1, 2, 2, 2, 2], [0, 0, 0, 1, 2, 3, 3, 3]]))
+    for cname, pdim, degs, sizes, ranks in cases:
+        for d in range(pdim):
+            # insertion strictly inside the first span: multiplicity 0, limit = degree; removal of the first interior knot: multiplicity 1, limit 1
+            limit = degs[d] if sign > 0 else 1
+            for num, admissible in ((limit, True), (limit + 1, False)):
+                record = []
+                obj = abstract_shape(cname, pdim, degs, sizes, False, record)
+                kv0 = [[Ord(r) for r in rk] for rk in ranks]
+                obj._a['_knot_vector'] = [list(k) for k in kv0]
+                total = 1
+                for s_ in sizes:
+                    total *= s_
+                cp0 = pts(total, 3, labelled=True)
+                obj._a['_control_points'] = cp0
+                if pdim == 2:
+                    obj._a['_control_points2D'] = [[cp0[v_ + sizes[1] * u_] for v_ in range(sizes[1])] for u_ in range(sizes[0])]
+                setc = []
+
+                def set_ctrlpts(sk, node, cp, *sz, _o=obj, _s=setc, **k):
+                    _s.append(tuple(sz))
+                    _o._a['_control_points'] = cp
+                    _o._a['_control_points_size'] = list(sz) if sz else [len(cp)]
+                obj._a['set_ctrlpts'] = Py(set_ctrlpts, 'set_ctrlpts')
+                helped = []
+
+                def stub(sk, node, deg, kv, rows, u=None, _h=helped, **k):
+                    n_ = k.get('num', 1)
+                    _h.append(n_)
+                    return ([rows[0]] * n_ + list(rows)) if sign > 0 else list(rows)[n_:]
+                ab = dict(STD_ABSTRACTED)
+                ab[('helpers', helper)] = Py(stub, helper)
+                param, nums = [None] * pdim, [0] * pdim
+                param[d] = Ord(0.5) if sign > 0 else Ord(1)
+                nums[d] = num
+                sk = SK(m, ab)
+                key = 'operations.%s :: BSpline.%s, direction %s, count %d (%s)' % (fname, cname, 'uvw'[d], num, 'the limit' if admissible else 'one above the limit')
+                why = None
+                rejected = False
+                try:
+                    sk.call(m.func('operations.' + fname), [obj, param, nums], {})
+                except Violation as v:
+                    if v.rule == 'RAISE':
+                        rejected = True
+                    else:
+                        why = '%s %s' % (v.msg, v.where())
+                except Unsupported as ex:
+                    raise AnalysisError('%s: interpreter met an unsupported construct: %s' % (key, ex))
+                if why is None:
+                    if admissible:
+                        if rejected:
+                            why = 'a count of exactly %s is rejected (the guard compares with the degree / multiplicity of another direction, or with the wrong inequality)' % (
+                                'degree - multiplicity' if sign > 0 else 'the multiplicity')
+                        elif helped and any(h != num for h in helped) or not helped:
+                            why = 'the per-row helper is called with the counts %s, requested %d' % (sorted(set(helped)), num)
+                    else:
+                        untouched = obj._a['_control_points'] is cp0 and [[k.rank for k in kv] for kv in obj._a['_knot_vector']] == ranks and not setc
+                        if not rejected:
+                            why = 'a count one above %s is carried out instead of being rejected' % ('degree - multiplicity' if sign > 0 else 'the multiplicity')
+                        elif not untouched or helped:
+                            why = 'the request is rejected only after the shape has been written to (or the helper has run): the object is not left unchanged'
+                run.ob('OPS2.multiplicity-limit-on-abstract-net', key, why is None, 'carried out' if admissible and why is None else ('rejected, shape untouched' if why is None else why),
+                       'geomdl/operations.py in operations.%s' % fname)
